@@ -41,6 +41,13 @@ def overhang_family():
                   "M%s,%s L%s,%s L%s,%s L%s,%s Z" % (-o, -o, 64 + o, -o, 64 + o, 64 + o, -o, 64 + o)):
             jobs.append(('<svg xmlns="http://www.w3.org/2000/svg" viewBox="0 0 64 64"><defs/><path d="%s" fill="red"/>'
                          '<path d="M1,1 L9,1 L9,9 Z"/></svg>' % d, (0, 0, 64, 64)))
+    # a picosvg path may still carry a clip-rule (it means nothing there): cutting it at the viewBox goes
+    # by its FILL rule - visible on same-direction nested contours straddling the border
+    for rule in ("evenodd", "nonzero"):
+        for d in ("M2,2 h10 v10 h-10 z M5,5 h4 v4 h-4 z", "M8,1 L11,13 L2,5 L14,5 L5,13 Z"):
+            for vb in ((0, 0, 8, 8), (6, 0, 10, 16), (0, 6, 16, 10)):
+                jobs.append(('<svg xmlns="http://www.w3.org/2000/svg" viewBox="0 0 16 16"><defs/><path clip-rule="%s" d="%s" '
+                             'fill="red"/></svg>' % (rule, d), vb))
     return jobs
 
 
